@@ -63,6 +63,8 @@ def run(ctx):
         rhs = v * (1 + q2 / (2 * lam))
         if rhs == 0:
             ctx.count("v_is_zero_skipped"); continue
+        if SC.tol_cond(nl, ex["cond"], ex["kappa"]) > Fraction(1, 1000):
+            ctx.count("cancellation_dominates(cond*kappa)_skipped"); continue
         tol = SC.tol_cond(nl, ex["cond"], ex["kappa"]) * (1 + q2 / (2 * lam)) + Fraction(1, 10 ** 13)
         rel = abs(lhs - rhs) / abs(rhs)
         ctx.extra["worst_error_over_tolerance"] = max(ctx.extra.get("worst_error_over_tolerance", 0.0), float(rel / tol))
